@@ -426,7 +426,34 @@ def validate_traces(trace_files, scratch, module="TraceAll.tla", cfg="TraceAll.c
             v["file"] = tf
             vs.append(v)
         return vs, nlines
-    # bundle many small files into few TLC runs (JVM start-up dominates)
+    # split very large files at execution boundaries (TLC holds the whole trace in memory) ...
+    MAXL = 60000
+    split_files = []
+    sdir = None
+    for tf in trace_files:
+        n = sum(1 for _ in open(tf))
+        if n <= MAXL * 2:
+            split_files.append(tf)
+            continue
+        if sdir is None:
+            sdir = scratch.sub("split-%d" % len(os.listdir(scratch.dir)))
+        part, out, cnt = 0, None, 0
+        with open(tf, "rb") as f:
+            for ln in f:
+                if out is None or (cnt >= MAXL and ln.startswith(b'{') and b'"Reset"' in ln[:40]):
+                    if out:
+                        out.close()
+                    pp = os.path.join(sdir, "%s.p%d.ndjson" % (os.path.basename(tf)[:-7] + "-%d" % len(split_files), part))
+                    out = open(pp, "wb")
+                    split_files.append(pp)
+                    part += 1
+                    cnt = 0
+                out.write(ln)
+                cnt += 1
+        if out:
+            out.close()
+    trace_files = split_files
+    # ... and bundle many small files into few TLC runs (JVM start-up dominates)
     sizes = [(tf, sum(1 for _ in open(tf))) for tf in trace_files]
     total = sum(n for _tf, n in sizes)
     target = max(2000, min(50000, total // (2 * (nproc or NCPU)) + 1))
